@@ -41,7 +41,7 @@ void harness(void) {
   vs.env_mask = 1 << VS_ENV_CONN; vs.env_kind = VS_ENV_CONN; vs.env_fd = fd;
   _Bool early = ND_BOOL();
   if (early) vs_env_fire();             /* client already queued / arrives while accept waits */
-  p_socket_set_blocking(S, early ? ND_BOOL() : TRUE);
+  p_socket_set_blocking(S, nd_pbool(early ? ND_BOOL() : TRUE));
   vs_begin_call(FAULTS, VS_M_EINTR | VS_M_EAGAIN);
   vs.nb_call = !p_socket_get_blocking(S);
   X = p_socket_accept(S, &err);
